@@ -36,7 +36,7 @@ def make_judges(ctx):
         if ev.op not in STORE_OPS or ev.exc is not None:
             return
         try:
-            si = decode_store(ev)
+            si = decode_store(ev, allow_fxp=True)     # the input may itself be a fixed-point value
         except Unsupported as e:
             ctx.skip('store:' + str(e))
             return
@@ -48,7 +48,29 @@ def make_judges(ctx):
             ctx.skip('store:' + why)
             return
         if si.index is not None:
-            ctx.skip('store:indexed (relations are checked on whole-object stores)')
+            # indexed stores: only the idempotence clause (representable values are stored unchanged with no new flag)
+            lo_, hi_ = R.code_range(post.signed, post.n_word)
+            sc_ = F(2) ** post.n_frac
+            xs_ = [v * sc_ for v in si.values] if not si.is_complex else None
+            if xs_ is None or si.pre is None or not all(x.denominator == 1 and lo_ <= x <= hi_ for x in xs_):
+                ctx.skip('store:indexed store of non-representable values (relations are checked on whole-object stores)')
+                return
+            try:
+                from ..storejudge import apply_index
+                want = apply_index(si.pre.codes, si.pre.shape, si.index, [int(x) for x in xs_], si.shape)
+            except (IndexError, ValueError):
+                ctx.skip('store:index not applicable in the model')
+                return
+            if post.codes != want:
+                ctx.violation('idempotence', '%s: indexed store of representable values %s gave codes %s, expected %s' % (
+                    R.dtype_fxp(*post.fmt()), [str(v) for v in si.values[:3]], post.codes[:6], want[:6]), ev)
+            raised = [f for f in _FL if post.status.get(f) and not si.pre.status.get(f)]
+            if raised:
+                ctx.violation('idempotence_flag', '%s %s/%s: an indexed store of representable values raised %s' % (
+                    R.dtype_fxp(*post.fmt()), post.rounding, post.overflow, raised), ev)
+            ctx.judged(('s' if post.signed else 'u', G.word_class(post.n_word), G.frac_class(post.n_word, post.n_frac), post.rounding, 'idempotent-indexed', repr(si.index)[:12]), True, None,
+                       elements=len(xs_))
+            ctx.floor_hit(('idempotent-indexed',))
             return
         if tuple(post.shape) != tuple(si.shape):
             ctx.violation('shape', 'stored shape %r, input shape %r' % (post.shape, si.shape), ev)
@@ -70,10 +92,20 @@ def make_judges(ctx):
         nchecked = 0
         for v, q in comps:
             x = v * sc
-            # cannot overflow in any mode: the two integers around x are both inside the range
+            # "an input that does not overflow": the integer the configured mode has to pick lies inside the range
+            # (computed directly on the Fraction: floor, ceiling, the one nearer to zero, the nearer one / the even one on a tie)
             fl = x.numerator // x.denominator
             ce = fl if x.denominator == 1 else fl + 1
-            if fl < lo or ce > hi:
+            if mode == 'floor':
+                tgt = (fl,)
+            elif mode == 'ceil':
+                tgt = (ce,)
+            elif mode in ('trunc', 'fix'):
+                tgt = (fl if x >= 0 else ce,)
+            else:
+                dl, dh = x - fl, ce - x
+                tgt = (fl,) if dl < dh else ((ce,) if dh < dl else ((fl,) if fl % 2 == 0 else (ce,)))
+            if any(t < lo or t > hi for t in tgt):
                 all_exact_in_range = False
                 continue
             nchecked += 1
@@ -151,7 +183,7 @@ def make_judges(ctx):
 
 def floors(tier):
     cells = [('rel', m, 'bound') for m in G.ROUNDINGS] + [('rel', 'around', 'tie-even')]
-    cells += [('monotone', m) for m in G.ROUNDINGS] + [('idempotent-noflag', m) for m in G.ROUNDINGS]
+    cells += [('monotone', m) for m in G.ROUNDINGS] + [('idempotent-noflag', m) for m in G.ROUNDINGS] + [('idempotent-indexed',)]
     return cells
 
 
@@ -198,10 +230,38 @@ def run_case(case, ctx):
     x.reset()
     x(x())                      # re-storing an object's own value is a no-op
     x.set_val(x.get_val())
+    own = x.get_val()
+    for j in (0, len(vals) - 1, -1):
+        x.reset()
+        x[j] = float(own[j])                        # ... also element by element (index 0 included)
+        x.set_val(float(own[j]), index=j)
     y = Fxp(float(vals[0]), s, w, nf, rounding=r, overflow=o)
     y.reset()
     y(y())
     y.set_val(y.get_val())
+    # inputs given as fixed-point values with more fraction bits than the destination (both signednesses)
+    for ssrc in (True, False):
+        wsrc = min(52, w + 6)
+        nfs = nf + rng.randint(1, 4)
+        lo_s, hi_s = R.code_range(ssrc, wsrc)
+        lo_d, hi_d = R.code_range(s, w)
+        ks = []
+        for _ in range(4):
+            kd = rng.randint(lo_d, hi_d) if rng.random() < 0.8 else rng.choice([lo_d, hi_d])
+            k = kd * 2 ** (nfs - nf) + rng.randint(-(2 ** (nfs - nf)) + 1, 2 ** (nfs - nf) - 1)
+            if lo_s <= k <= hi_s:
+                ks.append(k)
+        if ks and -8 <= nfs <= wsrc + 8:
+            src = Fxp(np.array(ks), ssrc, wsrc, nfs, raw=True)
+            try:
+                Fxp(src, s, w, nf, rounding=r, overflow=o)
+                d = Fxp(None, s, w, nf, rounding=r, overflow=o)
+                d(src)
+                d.set_val(src)
+                d.equal(src)
+                Fxp(src[0], s, w, nf, rounding=r, overflow=o)
+            except Exception:
+                pass
     # sorted hostile inputs (including out-of-range ones) for the monotonicity relation
     more = sorted(G.hostile_scaled_values(rng, s, w, nf, n=24))
     more = [float(v) for v in more if G.can_carry(v, 'pyfloat')]
